@@ -118,7 +118,7 @@ def check_disk_report(text, verbose, listing, action, truth_sides):
 
 
 def gen_cases(rng, tier):
-    n = scale(tier, 40, 800)
+    n = scale(tier, 40, 300)
     cases = []
     for _ in range(n):
         if rng.random() < 0.65:
